@@ -5,6 +5,7 @@ go 1.22
 require (
 	github.com/caddyserver/certmagic v0.20.0
 	github.com/tmpim/casket v0.0.0
+	golang.org/x/net v0.24.0
 	gopkg.in/natefinch/lumberjack.v2 v2.2.1
 )
 
@@ -44,7 +45,6 @@ require (
 	go.uber.org/zap v1.27.0 // indirect
 	golang.org/x/crypto v0.22.0 // indirect
 	golang.org/x/exp v0.0.0-20240416160154-fe59bbe5cc7f // indirect
-	golang.org/x/net v0.24.0 // indirect
 	golang.org/x/sys v0.19.0 // indirect
 	golang.org/x/text v0.14.0 // indirect
 	gopkg.in/yaml.v2 v2.4.0 // indirect
